@@ -2,13 +2,16 @@
    [match_seg]   : transcription of path/filepath.Match (Unix: scanChunk, matchChunk, getEsc) of the
                    installed Go 1.23.  Shared by both Globs (afero calls filepath.Match).  Strings are
                    sequences of code points < 128, so a rune is one element.
-   [afero_glob]  : transcription of /repo/match.go  Glob / glob / hasMeta
+   [afero_glob]  : transcription of /repo/match.go  Glob / glob / hasMeta, for either value of the two
+                   behaviour switches the translator reads from match.go (Gen/Consts.v
+                   glob_hasmeta_backslash, glob_checks_pattern_first): [afero_glob_gen bs chk];
+                   [afero_glob] is the code as it is in /repo NOW, [afero_glob_pinned] the pinned tree
    [std_glob]    : independent transcription of path/filepath  Glob / globWithLimit / cleanGlobPath /
                    glob / hasMeta (pattern pre-check Match(pattern, ""), backslash is a meta character,
                    "dir == pattern" guard, depth limit 10000).
    Both look paths up in the same [tree] (Model/Walk.v [tree_lookup]); I/O errors do not exist in a
    static tree (both implementations ignore them anyway). *)
-From AF Require Import Lib.Bytes Lib.Path Model.Walk.
+From AF Require Import Lib.Bytes Lib.Path Gen.Consts Model.Walk.
 
 Definition STAR : N := 42.
 Definition QUEST : N := 63.
@@ -183,9 +186,16 @@ Definition chop_last (s : str) : str := removelast s.
 
 (* ======================= afero: /repo/match.go ======================= *)
 
-(* strings.ContainsAny(path, "*?[") *)
+(* strings.ContainsAny(path, "*?[") — hasMeta of the pinned tree *)
 Definition has_meta (p : str) : bool :=
   existsb (fun c => N.eqb c STAR || N.eqb c QUEST || N.eqb c LBRACK) p.
+
+(* strings.ContainsAny(path, `*?[\`) — hasMeta with magicChars as path/filepath sets them (non-Windows) *)
+Definition has_meta_bs (p : str) : bool :=
+  existsb (fun c => N.eqb c STAR || N.eqb c QUEST || N.eqb c LBRACK || N.eqb c BSLASH) p.
+
+(* func hasMeta(path): [bs] = the backslash is one of the magic characters *)
+Definition afero_has_meta (bs : bool) (p : str) : bool := if bs then has_meta_bs p else has_meta p.
 
 (* the `for _, n := range names` of glob *)
 Fixpoint afero_glob_names (dir pattern : str) (names : list str) (m : list str) : glob_res :=
@@ -218,12 +228,18 @@ Fixpoint afero_glob_over (t : tree) (file : str) (ds : list str) (matches : list
     end
   end.
 
-(* func Glob(fs, pattern) *)
-Fixpoint afero_glob_f (fuel : nat) (t : tree) (pattern : str) : glob_res :=
+(* `if _, err := filepath.Match(pattern, ""); err != nil` *)
+Definition pattern_check_fails (pattern : str) : bool :=
+  match match_seg pattern [] with None => true | Some _ => false end.
+
+(* func Glob(fs, pattern).  [bs]: hasMeta counts the backslash; [chk]: Glob starts with
+   `if _, err := filepath.Match(pattern, ""); err != nil { return nil, err }` *)
+Fixpoint afero_glob_gen_f (bs chk : bool) (fuel : nat) (t : tree) (pattern : str) : glob_res :=
   match fuel with
   | O => ([], GOutOfFuel)
   | S f =>
-    if negb (has_meta pattern) then
+    if chk && pattern_check_fails pattern then ([], GBadPattern) else
+    if negb (afero_has_meta bs pattern) then
       match tree_lookup t pattern with            (* lstatIfPossible(fs, pattern) *)
       | None => ([], GNil)
       | Some _ => ([pattern], GNil)
@@ -233,15 +249,27 @@ Fixpoint afero_glob_f (fuel : nat) (t : tree) (pattern : str) : glob_res :=
       let dir := if is_empty dir0 then s_dot
                  else if beqb dir0 s_slash then dir0
                  else chop_last dir0 in
-      if negb (has_meta dir) then afero_glob1 t dir file []
+      if negb (afero_has_meta bs dir) then afero_glob1 t dir file []
       else
-        match afero_glob_f f t dir with
+        match afero_glob_gen_f bs chk f t dir with
         | (m, GNil) => afero_glob_over t file m []
         | (_, e) => ([], e)
         end
   end.
-Definition afero_glob (t : tree) (pattern : str) : glob_res :=
-  afero_glob_f (S (length pattern)) t pattern.
+Definition afero_glob_gen (bs chk : bool) (t : tree) (pattern : str) : glob_res :=
+  afero_glob_gen_f bs chk (S (length pattern)) t pattern.
+
+(* the two switches, regenerated from match.go on every check *)
+Definition sw_hasmeta_backslash : bool := Z.eqb glob_hasmeta_backslash 1.
+Definition sw_checks_pattern_first : bool := Z.eqb glob_checks_pattern_first 1.
+
+(* match.go as it is in /repo NOW *)
+Definition afero_glob : tree -> str -> glob_res :=
+  afero_glob_gen sw_hasmeta_backslash sw_checks_pattern_first.
+(* match.go of the pinned tree: `*?[`, no pattern check *)
+Definition afero_glob_pinned : tree -> str -> glob_res := afero_glob_gen false false.
+(* match.go following path/filepath in both respects *)
+Definition afero_glob_fixed : tree -> str -> glob_res := afero_glob_gen true true.
 
 (* ======================= standard library: path/filepath/match.go ======================= *)
 
@@ -333,6 +361,23 @@ Fixpoint std_accepts_f (fuel : nat) (pattern : str) : bool :=
     end
   end.
 Definition std_accepts (pattern : str) : bool := std_accepts_f (S (length pattern)) pattern.
+
+(* the same for ANY pattern (escapes included): the pre-check of filepath.Glob at every level of its
+   recursion, with the backslash counted as a meta character as filepath's hasMeta does.  A pattern that
+   is not [glob_accepts]ed is what Glob calls malformed: ErrBadPattern before anything is looked up. *)
+Fixpoint glob_accepts_f (fuel : nat) (pattern : str) : bool :=
+  match fuel with
+  | O => true
+  | S f =>
+    match match_seg pattern [] with
+    | None => false
+    | Some _ =>
+      if negb (std_has_meta pattern) then true else
+      let dir := clean_glob_path (fst (path_split pattern)) in
+      if negb (std_has_meta dir) then true else glob_accepts_f f dir
+    end
+  end.
+Definition glob_accepts (pattern : str) : bool := glob_accepts_f (S (length pattern)) pattern.
 
 (* A well-formed pattern without escapes, as one pass of a five-state machine over the pattern:
      pattern ::= { term }
